@@ -982,12 +982,11 @@ theorem Inv_send_drop (cfg : Cfg) (a : Acc) (s : St) (idx rid t : Nat) (q : List
     simp only [this]
     exact peak_mono h.peak
 
-theorem Inv_step_send (cfg : Cfg) (a : Acc) (s : St) (idx : Nat) (h : Inv cfg a s)
-    (hen : opEnabled cfg s .send = true) :
-    specObs cfg a idx .send (step cfg s .send).2 = .ok ∧
-      Inv cfg (a.after .send (step cfg s .send).2) (step cfg s .send).1 := by
-  simp only [step, stepOp]
-  simp only [opEnabled, stepOp] at hen
+/-- an iteration of the send loop (the loop is not parked in a write) -/
+theorem Inv_send_core (cfg : Cfg) (a : Acc) (s : St) (idx : Nat) (h : Inv cfg a s)
+    (hen : ((stepSend s).2.res != .badop) = true) :
+    specObs cfg a idx .send (obsOf (stepSend s).1 (stepSend s).2) = .ok ∧
+      Inv cfg (a.after .send (obsOf (stepSend s).1 (stepSend s).2)) (stepSend s).1 := by
   unfold stepSend at hen ⊢
   cases hq : s.sendq with
   | nil => simp [hq] at hen
@@ -1014,6 +1013,123 @@ theorem Inv_step_send (cfg : Cfg) (a : Acc) (s : St) (idx : Nat) (h : Inv cfg a 
           have := Inv_send_write cfg a s idx rid t q h hq hl hu s.reqs (fun _ _ => rfl)
           exact this
 
+theorem Inv_step_send (cfg : Cfg) (a : Acc) (s : St) (idx : Nat) (h : Inv cfg a s)
+    (hen : opEnabled cfg s .send = true) :
+    specObs cfg a idx .send (step cfg s .send).2 = .ok ∧
+      Inv cfg (a.after .send (step cfg s .send).2) (step cfg s .send).1 := by
+  simp only [step, stepOp]
+  simp only [opEnabled, stepOp] at hen
+  by_cases hw : s.writing = true
+  · simp [hw] at hen
+  · simp only [hw] at hen ⊢
+    exact Inv_send_core cfg a s idx h hen
+
+/-! #### the write as a yield point: `wbegin`, `wend`, `quiet` -/
+
+/-- the invariant does not look at the `writing` flag of the state, nor at the time-out
+    bookkeeping of the accumulator -/
+theorem Inv_congr {cfg : Cfg} {a a' : Acc} {s s' : St} (h : Inv cfg a s)
+    (hu : a'.unans = a.unans) (hpf : a'.pfree = a.pfree) (hpk : a'.peak = a.peak)
+    (h1 : s'.pool = s.pool) (h2 : s'.tagmap = s.tagmap) (h3 : s'.sendq = s.sendq) (h4 : s'.reqs = s.reqs) :
+    Inv cfg a' s' := by
+  refine ⟨?_, ?_, ?_, ?_, ?_⟩
+  · rw [h1, h2]; exact h.pool
+  · simp only [Acc.tags, hu, h2, h3, h4]; exact h.q
+  · rw [hu, h2]; exact h.own
+  · rw [hpf, h1]; exact h.pfree
+  · rw [hpk, h1]; exact h.peak
+
+theorem specObs_wbegin (cfg : Cfg) (a : Acc) (idx : Nat) (o : Obs) :
+    specObs cfg a idx .wbegin o = specObs cfg a idx .send o := by
+  simp [specObs, isReqOk, answers, ownReplyBad]
+
+theorem specObs_plain_eq (cfg : Cfg) (a : Acc) (idx : Nat) (op : Op) (o : Obs) (h : op = .wend ∨ op = .quiet) :
+    specObs cfg a idx op o = specObs cfg a idx .send o := by
+  rcases h with h | h <;> subst h <;> simp [specObs, isReqOk, answers, ownReplyBad]
+
+theorem stepSend_res_of_wrote (s : St) (h : (stepSend s).2.wrote.isEmpty = false) : (stepSend s).2.res = .ok := by
+  unfold stepSend at h ⊢
+  cases hq : s.sendq with
+  | nil => simp [hq] at h
+  | cons i q =>
+    cases i with
+    | ping => rfl
+    | discard w => rfl
+    | req rid t =>
+      simp only [hq] at h ⊢
+      cases hr : s.reqs[rid]? with
+      | none => simp [hr] at h
+      | some r =>
+        simp only [hr] at h ⊢
+        cases hk : r.key <;> cases hev : r.ev <;> simp_all [releaseTag]
+
+theorem Inv_step_wbegin (cfg : Cfg) (a : Acc) (s : St) (idx : Nat) (h : Inv cfg a s)
+    (hen : opEnabled cfg s .wbegin = true) :
+    specObs cfg a idx .wbegin (step cfg s .wbegin).2 = .ok ∧
+      Inv cfg (a.after .wbegin (step cfg s .wbegin).2) (step cfg s .wbegin).1 := by
+  simp only [step, stepOp]
+  simp only [opEnabled, stepOp] at hen
+  unfold stepWBegin at hen ⊢
+  by_cases hw : s.writing = true
+  · simp [hw] at hen
+  · simp only [hw] at hen ⊢
+    cases he : (stepSend s).2.wrote.isEmpty with
+    | true => simp [he] at hen
+    | false =>
+      simp only [he, if_false, Bool.false_eq_true] at hen ⊢
+      have hres := stepSend_res_of_wrote s he
+      obtain ⟨hv, hinv⟩ := Inv_send_core cfg a s idx h (by rw [hres]; rfl)
+      rw [specObs_wbegin]
+      exact ⟨hv, Inv_congr hinv rfl rfl rfl rfl rfl rfl rfl⟩
+
+/-- a step that changes nothing the invariant looks at and writes nothing -/
+theorem Inv_step_idle (cfg : Cfg) (a : Acc) (s s' : St) (idx : Nat) (op : Op) (h : Inv cfg a s)
+    (hop : op = .wend ∨ op = .quiet)
+    (h1 : s'.pool = s.pool) (h2 : s'.tagmap = s.tagmap) (h3 : s'.sendq = s.sendq) (h4 : s'.reqs = s.reqs) :
+    specObs cfg a idx op (obsOf s' {}) = .ok ∧ Inv cfg (a.after op (obsOf s' {})) s' := by
+  have hs : Inv cfg a s' := Inv_congr h rfl rfl rfl h1 h2 h3 h4
+  have hne : op ≠ .reopen := by rcases hop with e | e <;> subst e <;> simp
+  have hnp : ∀ m t, op ≠ .process m t := by intro m t; rcases hop with e | e <;> subst e <;> simp
+  have hna : ∀ t, answers op t = false := by intro t; rcases hop with e | e <;> subst e <;> rfl
+  have hnr : isReqOk op (obsOf s' {}) = false := by rcases hop with e | e <;> subst e <;> rfl
+  refine step_pack cfg a idx op s' {} hne hs.pool ?_ (ownReplyBad_other a op _ hnp) ?_ ?_ (uniqueOk_nil _) ?_ ?_ ?_
+  · rw [after_pairs_other a op _ hne hnp]
+    simp only [obsOf, reqPairs, List.filter_nil, List.map_nil, List.append_nil]
+    exact hs.own
+  · rw [after_unans_other a op _ hne hnp]
+    simp only [obsOf, reqTags, List.filter_nil, List.map_nil, List.append_nil]
+    exact hs.q
+  · intro t ht
+    simp only [givenTags, hnr, Bool.false_eq_true, if_false, List.nil_append] at ht
+    simp [obsOf, reqTags] at ht
+  · intro t ht
+    left; rw [hs.pfree]; exact mem_sortNat.mpr ht
+  · intro hq; rw [hnr] at hq; cases hq
+  · exact peak_mono hs.peak
+
+theorem Inv_step_wend (cfg : Cfg) (a : Acc) (s : St) (idx : Nat) (h : Inv cfg a s)
+    (hen : opEnabled cfg s .wend = true) :
+    specObs cfg a idx .wend (step cfg s .wend).2 = .ok ∧
+      Inv cfg (a.after .wend (step cfg s .wend).2) (step cfg s .wend).1 := by
+  simp only [step, stepOp]
+  simp only [opEnabled, stepOp] at hen
+  unfold stepWEnd at hen ⊢
+  by_cases hw : s.writing = true
+  · simp only [hw, if_true]
+    exact Inv_step_idle cfg a s _ idx .wend h (Or.inl rfl) rfl rfl rfl rfl
+  · simp [hw] at hen
+
+theorem Inv_step_quiet (cfg : Cfg) (a : Acc) (s : St) (idx : Nat) (h : Inv cfg a s)
+    (hen : opEnabled cfg s .quiet = true) :
+    specObs cfg a idx .quiet (step cfg s .quiet).2 = .ok ∧
+      Inv cfg (a.after .quiet (step cfg s .quiet).2) (step cfg s .quiet).1 := by
+  simp only [step, stepOp]
+  simp only [opEnabled, stepOp] at hen
+  unfold stepQuiet at hen ⊢
+  split
+  · exact Inv_step_idle cfg a s _ idx .quiet h (Or.inr rfl) rfl rfl rfl rfl
+  · rename_i hc; simp [hc] at hen
+
 /-! #### req -/
 
 theorem tmLookup_set_self (t rid : Nat) (m : List (Nat × Nat)) : tmLookup t (tmSet t rid m) = some rid := by
@@ -1038,7 +1154,7 @@ theorem Inv_req_tag (cfg : Cfg) (a : Acc) (s : St) (e : EvKind) (popped idx t : 
     (hpk : p'.next ≤ Nat.max a.peak (tmKeys (tmSet t s.reqs.length s.tagmap)).length + 1) :
     let s' : St := { pool := p', tagmap := tmSet t s.reqs.length s.tagmap,
                      sendq := s.sendq ++ [.req s.reqs.length t],
-                     reqs := s.reqs ++ [⟨.tag t, evOf e, false⟩] }
+                     reqs := s.reqs ++ [⟨.tag t, evOf e, false⟩], writing := s.writing }
     specObs cfg a idx (.req e popped) (obsOf s' { assigned := t }) = .ok ∧
       Inv cfg (a.after (.req e popped) (obsOf s' { assigned := t })) s' := by
   intro s'
@@ -1214,6 +1330,9 @@ theorem Inv_step (cfg : Cfg) (a : Acc) (s : St) (op : Op) (idx : Nat) (hmax : 2 
     | thriftmux => exact Inv_step_ping cfg a s idx h
     | kafka => simp [hfl] at hen
   | reopen => exact Inv_step_reopen cfg a s idx hmax
+  | wbegin => exact Inv_step_wbegin cfg a s idx h hen
+  | wend => exact Inv_step_wend cfg a s idx h hen
+  | quiet => exact Inv_step_quiet cfg a s idx h hen
 
 /-! ### whole histories -/
 
